@@ -258,6 +258,26 @@ def run(tier: str, only=None) -> int:
     rep.add_enumeration("mutations-and-prefixes", total - nsoup, total - nsoup, {"valid_dumps": len(blobs)})
     rep.sample({"soup": repr(b"\x02" + b"".join(ALPHABET[:3]))})
     rep.sample({"seed dump": repr(blobs[9])})
+    # length-prefixed payloads of every size class (buffer / chunk boundaries), in every position, whole and cut
+    sizes = [0, 1, 4095, 4096, 4097, 8191, 8192, 8193, 65535, 65536, 65537, 131072, 200001] + ([(1 << 20) + 1, (1 << 22) + 3] if tier != "quick" else [])
+    big = []
+    for n in sizes:
+        for leaf in (bytes(range(256)) * (n // 256 + 1))[:n], "a" * n, R.Py2Str(b"\xfe" * n), R.Py2Unicode("u" * n):
+            hashable = not isinstance(leaf, (R.Py2Str, R.Py2Unicode))
+            for place in ("root", "list", "key", "set", "tuple"):
+                if place in ("key", "set") and not hashable:
+                    place_v = {1: leaf} if place == "key" else (leaf, 1)
+                else:
+                    place_v = {"root": leaf, "list": [0, leaf], "key": {leaf: 1}, "set": {leaf} if hashable else None, "tuple": (leaf, leaf)}[place]
+                blob = R.encode(place_v)
+                big.append(blob)
+                if n:
+                    # cut inside the payload: EOFError, never a value and never a foreign type
+                    big.append(blob[: len(blob) - n // 2 - 3])
+    res = pmap(run_chunk, [("blobs", big[i::32]) for i in range(32)])
+    before = total
+    merge(res)
+    rep.add_enumeration("payload-size-classes", total - before, total - before, {"sizes": sizes})
     # no strict prefix of a valid dump may load successfully
     import execnet
 
